@@ -18,6 +18,11 @@ impl<T: Clone> Clone for Vector<T> {
     fn clone(&self) -> (r: Self) ensures r@ == self@ { unimplemented!() }
 }
 
+impl<T: Clone> Default for Vector<T> {
+    #[verifier::external_body]
+    fn default() -> (r: Self) ensures r@ == Seq::<T>::empty() { unimplemented!() }
+}
+
 impl<T: Clone> Vector<T> {
     #[verifier::external_body]
     pub fn new() -> (r: Self) ensures r@ == Seq::<T>::empty() { unimplemented!() }
